@@ -392,64 +392,60 @@ theorem replaceRangeWith_valid_inline_partial (S : Schema) (hS : S ∈ familySch
     node hinl cs hv hattrs hft h c hc hsl hslv st hst hpa ha
 
 /-- `PM.C11.aroundPayload_of_norm` with its schema guards discharged for the bundled schema family -/
-theorem aroundPayload_of_norm (S : Schema) (hS : S ∈ domFamilySchemas) (doc : Node) (f t : Nat) (req : Slice)
-    (hv : C01.Valid S doc) (hn : fnorm doc.kids = true) (st : Step)
-    (h : replaceStep S doc f t req = .ok (some st)) (hwf : StepWF st = true)
+theorem aroundPayload_of_norm (S : Schema) (hS : S ∈ familySchemas) (doc : Node) (f t : Nat) (req : Slice)
+    (hv : C01.Valid S doc) (st : Step) (h : replaceStep S doc f t req = .ok (some st)) (hwf : StepWF st = true)
     (hp : ∃ sl', st.sliceOf = some sl' ∧ openValid S sl'.openStart sl'.openEnd sl'.content = true)
     (hsn : ∀ sl', st.sliceOf = some sl' → fnorm sl'.content = true) :
     AroundPayload S doc st :=
-  PM.C11.aroundPayload_of_norm S (family_textStable _ hS) doc f t req hv hn st h hwf hp hsn
+  PM.C11.aroundPayload_of_norm S doc f t req hv st h hwf hp hsn
 
 /-- `PM.C11.insertInline_valid_of_norm` with its schema guards discharged for the bundled schema family -/
 theorem insertInline_valid_of_norm (S : Schema) (hS : S ∈ domFamilySchemas) (doc doc' : Node) (f t : Nat)
     (sl : Slice) (hsl : sl.inlineLeaves S = true) (hslv : sl.closedValid S = true) (hv : C01.Valid S doc)
-    (hn : fnorm doc.kids = true) (hattrs : S.nodeAttrsOK doc = true) (hft : f ≤ t) (st : Step)
-    (h : replaceStep S doc f t sl = .ok (some st))
+    (hattrs : S.nodeAttrsOK doc = true) (hft : f ≤ t) (st : Step) (h : replaceStep S doc f t sl = .ok (some st))
     (hsn : ∀ F T G1 G2 sl' ins b, st = .replaceAround F T G1 G2 sl' ins b → fnorm sl'.content = true)
     (ha : S.apply st doc = .ok doc') :
     C01.Valid S doc' ∧ Kept (ftoks doc.kids) (ftoks doc'.kids) f t (textUnits (sliceToks' sl)) :=
   PM.C11.insertInline_valid_of_norm S (family_det _ (domFamily_sub _ hS))
     (family_fillersOK _ (domFamily_sub _ hS)) (family_wrapOK _ (domFamily_sub _ hS))
     (family_labelsOK _ (domFamily_sub _ hS)) (family_leafOk _ (domFamily_sub _ hS))
-    (family_textStableC _ (domFamily_sub _ hS)) (family_closable _ (domFamily_sub _ hS))
-    (family_textStable _ hS) doc doc' f t sl hsl hslv hv hn hattrs hft st h hsn ha
+    (family_textStableC _ (domFamily_sub _ hS)) (family_closable _ (domFamily_sub _ hS)) doc doc' f t sl hsl
+    hslv hv hattrs hft st h hsn ha
 
 /-- `PM.C11.replace_valid_of_inv_of_norm` with its schema guards discharged for the bundled schema family -/
 theorem replace_valid_of_inv_of_norm (S : Schema) (hS : S ∈ domFamilySchemas) (doc doc' : Node) (f t : Nat)
     (sl : Slice) (hwf : sl.wf = true) (hslv : openValid S sl.openStart sl.openEnd sl.content = true)
-    (hv : C01.Valid S doc) (hn : fnorm doc.kids = true) (hattrs : S.nodeAttrsOK doc = true) (hft : f ≤ t)
-    (st : Step) (h : replaceStep S doc f t sl = .ok (some st)) (hend : fitEndInv S doc f t sl ≠ some false)
+    (hv : C01.Valid S doc) (hattrs : S.nodeAttrsOK doc = true) (hft : f ≤ t) (st : Step)
+    (h : replaceStep S doc f t sl = .ok (some st)) (hend : fitEndInv S doc f t sl ≠ some false)
     (hsn : ∀ F T G1 G2 sl' ins b, st = .replaceAround F T G1 G2 sl' ins b → fnorm sl'.content = true)
     (ha : S.apply st doc = .ok doc') :
     C01.Valid S doc' ∧ Kept (ftoks doc.kids) (ftoks doc'.kids) f t (textUnits (sliceToks' sl)) :=
   PM.C11.replace_valid_of_inv_of_norm S (family_det _ (domFamily_sub _ hS))
     (family_fillersOK _ (domFamily_sub _ hS)) (family_leafOk _ (domFamily_sub _ hS))
-    (family_textStableC _ (domFamily_sub _ hS)) (family_closable _ (domFamily_sub _ hS))
-    (family_textStable _ hS) doc doc' f t sl hwf hslv hv hn hattrs hft st h hend hsn ha
+    (family_textStableC _ (domFamily_sub _ hS)) (family_closable _ (domFamily_sub _ hS)) doc doc' f t sl hwf
+    hslv hv hattrs hft st h hend hsn ha
 
 /-- `PM.C11.insertInline_valid` with its schema guards discharged for the bundled schema family -/
 theorem insertInline_valid (S : Schema) (hS : S ∈ domFamilySchemas) (doc doc' : Node) (f t : Nat) (sl : Slice)
     (hsl : sl.inlineLeaves S = true) (hslv : sl.closedValid S = true) (hsn : fnorm sl.content = true)
-    (hv : C01.Valid S doc) (hn : fnorm doc.kids = true) (hattrs : S.nodeAttrsOK doc = true) (hft : f ≤ t)
-    (st : Step) (h : replaceStep S doc f t sl = .ok (some st)) (ha : S.apply st doc = .ok doc') :
+    (hv : C01.Valid S doc) (hattrs : S.nodeAttrsOK doc = true) (hft : f ≤ t) (st : Step)
+    (h : replaceStep S doc f t sl = .ok (some st)) (ha : S.apply st doc = .ok doc') :
     C01.Valid S doc' ∧ Kept (ftoks doc.kids) (ftoks doc'.kids) f t (textUnits (sliceToks' sl)) :=
   PM.C11.insertInline_valid S (family_det _ (domFamily_sub _ hS)) (family_fillersOK _ (domFamily_sub _ hS))
     (family_wrapOK _ (domFamily_sub _ hS)) (family_labelsOK _ (domFamily_sub _ hS))
     (family_leafOk _ (domFamily_sub _ hS)) (family_textStableC _ (domFamily_sub _ hS))
-    (family_closable _ (domFamily_sub _ hS)) (family_textStable _ hS) doc doc' f t sl hsl hslv hsn hv hn hattrs
-    hft st h ha
+    (family_closable _ (domFamily_sub _ hS)) doc doc' f t sl hsl hslv hsn hv hattrs hft st h ha
 
 /-- `PM.C11.replace_valid_of_inv` with its schema guards discharged for the bundled schema family -/
 theorem replace_valid_of_inv (S : Schema) (hS : S ∈ domFamilySchemas) (doc doc' : Node) (f t : Nat) (sl : Slice)
     (hwf : sl.wf = true) (hslv : openValid S sl.openStart sl.openEnd sl.content = true)
-    (hsn : fnorm sl.content = true) (hv : C01.Valid S doc) (hn : fnorm doc.kids = true)
-    (hattrs : S.nodeAttrsOK doc = true) (hft : f ≤ t) (st : Step) (h : replaceStep S doc f t sl = .ok (some st))
-    (hend : fitEndInv S doc f t sl ≠ some false) (ha : S.apply st doc = .ok doc') :
+    (hsn : fnorm sl.content = true) (hv : C01.Valid S doc) (hattrs : S.nodeAttrsOK doc = true) (hft : f ≤ t)
+    (st : Step) (h : replaceStep S doc f t sl = .ok (some st)) (hend : fitEndInv S doc f t sl ≠ some false)
+    (ha : S.apply st doc = .ok doc') :
     C01.Valid S doc' ∧ Kept (ftoks doc.kids) (ftoks doc'.kids) f t (textUnits (sliceToks' sl)) :=
   PM.C11.replace_valid_of_inv S (family_det _ (domFamily_sub _ hS)) (family_fillersOK _ (domFamily_sub _ hS))
     (family_leafOk _ (domFamily_sub _ hS)) (family_textStableC _ (domFamily_sub _ hS))
-    (family_closable _ (domFamily_sub _ hS)) (family_textStable _ hS) doc doc' f t sl hwf hslv hsn hv hn hattrs
-    hft st h hend ha
+    (family_closable _ (domFamily_sub _ hS)) doc doc' f t sl hwf hslv hsn hv hattrs hft st h hend ha
 
 /-- `PM.C11.fit_emits_valid_payload` with its schema guards discharged for the bundled schema family -/
 theorem fit_emits_valid_payload (S : Schema) (hS : S ∈ familySchemas) (doc : Node) (f t : Nat) (sl : Slice)
